@@ -767,3 +767,69 @@ Proof.
   change (c_RTR_SYNC =? c_RTR_SYNC) with true. cbv iota.
   unfold bind at 1. rewrite H. replace (r =? 0) with false by (symmetry; now apply Z.eqb_neq). reflexivity.
 Qed.
+
+(* ---------- restatements used by Props/Properties_C14.v ---------- *)
+Lemma queries_wf (s : sock) :
+  wf_pdu (version s mod 256) (serial_query_bytes s) /\ wf_pdu (version s mod 256) (reset_query_bytes s) /\
+  (0 <= session_id s < 65536 -> 0 <= serial s < 4294967296 ->
+   get16 (serial_query_bytes s) 2 = session_id s /\ get32 (serial_query_bytes s) 8 = serial s /\ zlen (serial_query_bytes s) = 12).
+Proof. split; [apply serial_query_wf|]. split; [apply reset_query_wf|apply serial_query_fields]. Qed.
+
+Lemma query_bytes :
+  send_serial_query = (mdo s <- get_sk; mdo r <- send_pdu (serial_query_bytes s);
+                       if r =? 0 then ret 0 else mdo _ <- change_state c_RTR_ERROR_TRANSPORT; ret (-1)) /\
+  send_reset_query = (mdo s <- get_sk; mdo r <- send_pdu (reset_query_bytes s);
+                      if r =? 0 then ret 0 else mdo _ <- change_state c_RTR_ERROR_TRANSPORT; ret (-1)).
+Proof. split; reflexivity. Qed.
+
+Lemma reports_wf v code enc text :
+  0 <= code < 65536 -> 16 + zlen enc + zlen text <= c_RTR_MAX_PDU_LEN ->
+  let b := error_report v code enc text in
+  wf_pdu (v mod 256) b /\
+  nthb b 1 = c_ERROR /\ get16 b 2 = code /\ get32 b 4 = 16 + zlen enc + zlen text /\ get32 b 8 = zlen enc /\
+  firstn (length enc) (skipn 12 b) = enc /\ get32 b (12 + length enc) = zlen text /\
+  skipn (16 + length enc) b = text /\ zlen b = 16 + zlen enc + zlen text.
+Proof. intros Hc Hok b. split; [now apply error_report_wf|now apply error_report_fields]. Qed.
+
+Lemma report_updates p v4 v6 ks w :
+  ~ shut w -> get16 p 2 = session_id (sk w) -> Forall reportable v4 -> Forall reportable v6 -> Forall reportable ks ->
+  exists r w' l, process_eod p v4 v6 ks w = Ok r w' /\ Q l w w' /\
+    ((r = 0 /\ l = []) \/
+     (r = -1 /\ st (sk w') = c_RTR_ERROR_FATAL /\
+      exists bad c k, In bad (v4 ++ v6 ++ ks) /\ update_class bad c /\ l = [update_report (version (sk w)) bad c k])).
+Proof. intros Hs Hse H4 H6 Hk. apply (postQ_elim _ _ _ Hs (process_eod_updates p v4 v6 ks w Hse H4 H6 Hk)). Qed.
+
+Lemma update_codes :
+  upd_code 3 = c_CORRUPT_DATA /\ upd_code 1 = c_DUPLICATE_ANNOUNCEMENT /\ upd_code 2 = c_WITHDRAWAL_OF_UNKNOWN_RECORD /\
+  upd_text 3 false = txt_pfx_flags /\ upd_text 3 true = txt_key_flags /\ upd_text 1 false = [] /\ upd_text 2 false = [] /\
+  upd_text 1 true = [] /\ upd_text 2 true = [].
+Proof. repeat split. Qed.
+
+Lemma Q_meaning l w w' : Q l w w' ->
+  (exists items, out w' = rev items ++ out w /\ attempts l items) /\ version (sk w') = version (sk w).
+Proof. intros (H & Hv & _). now split. Qed.
+
+Lemma no_report_for_error enc v code text : is_err_pdu enc = true -> report_for enc v code text = [].
+Proof. intros H. unfold report_for. now rewrite H. Qed.
+
+Lemma error_report_bytes v code (enc text : list byte) : Forall byte_ok enc -> Forall byte_ok text ->
+  Forall byte_ok (error_report v code enc text) /\
+  error_report v code enc text =
+    [v mod 256; c_ERROR] ++ enc16 code ++ enc32 (16 + zlen enc + zlen text) ++ enc32 (zlen enc) ++ enc ++ enc32 (zlen text) ++ text.
+Proof.
+  intros He Ht. split; [|reflexivity]. unfold error_report.
+  apply Forall_app; split; [bytes_ok|]. apply Forall_app; split; [apply enc16_ok|]. apply Forall_app; split; [apply enc32_ok|].
+  apply Forall_app; split; [apply enc32_ok|]. apply Forall_app; split; [exact He|]. apply Forall_app; split; [apply enc32_ok|exact Ht].
+Qed.
+
+(* the fixed texts consist of bytes *)
+Lemma texts_bytes :
+  Forall byte_ok txt_too_small /\ Forall byte_ok txt_too_big /\ Forall byte_ok txt_pfx_flags /\ Forall byte_ok txt_key_flags /\
+  Forall byte_ok txt_pfx_len /\ Forall byte_ok txt_unexp_store /\ Forall byte_ok txt_unexp_sync /\ Forall byte_ok txt_wrong_session.
+Proof. repeat split; repeat (apply Forall_cons; [vm_compute; split; congruence|]); apply Forall_nil. Qed.
+
+(* a concrete run: a header announcing 7 bytes draws exactly one Error Report (code 0) echoing the 8 bytes received *)
+Example ex_too_small :
+  sent_of (run_script 3 100 3600 7200 600 0 [] [] [EvData [1; 3; 0; 42; 0; 0; 0; 7]] [true] []) =
+  reset_query_bytes (init_sock 3600 7200 600 0) ++ error_report 1 c_CORRUPT_DATA [1; 3; 0; 42; 0; 0; 0; 7] txt_too_small.
+Proof. vm_compute. reflexivity. Qed.
